@@ -609,3 +609,101 @@ func exploreNet(c *vx.Ctx, heights int, maxDev int, seeds [][]string) {
 	}
 	c.Extra["deviation_bound_completed"] = completed
 }
+
+// exploreBare: the bare state machine (smbare.go) under its benign script with every single deviation (insert any
+// alphabet event at any position, drop any scripted event), thorough: pairs within a window, plus BFS from script
+// prefixes over the whole alphabet.
+func exploreBare(c *vx.Ctx, props string, maxDev int, bfsDepth int, st *exploreStats, each func(j vx.Job, r vx.Result)) {
+	pl := strings.Split(props, ",")
+	script := bareScript()
+	alpha := bareAlphabet()
+	job := func(devs ...string) vx.Job {
+		return vx.Job{Exec: "smbare", Hist: devs, Args: map[string]string{"props": props, "mode": "dev"}}
+	}
+	var singles []string
+	for pos := 0; pos <= len(script); pos++ {
+		for _, ev := range alpha {
+			singles = append(singles, fmt.Sprintf("%d:+%s", pos, ev))
+		}
+	}
+	for pos := range script {
+		singles = append(singles, fmt.Sprintf("%d:-", pos))
+	}
+	jobs := []vx.Job{job()}
+	for _, d := range singles {
+		jobs = append(jobs, job(d))
+	}
+	c.Extra["bare_sm_script_len"] = len(script)
+	c.Extra["bare_sm_alphabet"] = len(alpha)
+	c.Extra["bare_sm_single_deviations"] = len(singles)
+	done := runJobs(c, jobs, st, pl, each)
+	completed := 0
+	if done {
+		completed = 1
+	}
+	if done && maxDev >= 2 {
+		var pairs []vx.Job
+		for i, d1 := range singles {
+			p1 := devPos(d1)
+			if p1 > 20 {
+				continue
+			}
+			for k, d2 := range singles {
+				p2 := devPos(d2)
+				if p2 < p1 || p2 > p1+3 || (p2 == p1 && k == i) {
+					continue
+				}
+				pairs = append(pairs, job(d1, d2))
+			}
+		}
+		c.Extra["bare_sm_double_deviations"] = len(pairs)
+		if runJobs(c, pairs, st, pl, each) {
+			completed = 2
+		}
+	}
+	c.Extra["bare_sm_deviation_bound_completed"] = completed
+	if bfsDepth > 0 {
+		seen := map[string]struct{}{}
+		type node struct {
+			seed int
+			hist []string
+		}
+		frontier := []node{{2, nil}, {4, nil}, {6, nil}, {12, nil}, {14, nil}}
+		levelDone := -1
+		for d := 0; d <= bfsDepth && len(frontier) > 0; d++ {
+			js := make([]vx.Job, len(frontier))
+			for i, n := range frontier {
+				js[i] = vx.Job{Exec: "smbare", Hist: n.hist, Args: map[string]string{"props": props, "mode": "raw", "seed": fmt.Sprint(n.seed)}}
+			}
+			var next []node
+			ok := runJobs(c, js, st, pl, func(j vx.Job, r vx.Result) {
+				if each != nil {
+					each(j, r)
+				}
+				if r.Crash != "" || r.HarnessErr != "" || r.Key == "" {
+					return
+				}
+				k := vx.ShortHash(r.Key)
+				if _, dup := seen[k]; dup {
+					return
+				}
+				seen[k] = struct{}{}
+				if d == bfsDepth {
+					return
+				}
+				var sd int
+				fmt.Sscan(j.Args["seed"], &sd)
+				for _, ev := range alpha {
+					next = append(next, node{sd, append(append([]string{}, j.Hist...), ev)})
+				}
+			})
+			if !ok {
+				break
+			}
+			levelDone = d
+			frontier = next
+		}
+		c.Extra["bare_sm_bfs_depth_completed"] = levelDone
+		c.Extra["bare_sm_bfs_distinct_states"] = len(seen)
+	}
+}
